@@ -218,6 +218,18 @@ example : serve demoAbort = .ok ⟨63,
 
 example : finalStatus (onion 0 demoAbort).1 = 403 := by decide
 
+/-- the hypotheses of the theorems above are met by this run: it contains an abort event with events
+    after it, a false and a true IsAborted() sample, and started handlers that were suspended -/
+example : Ev.abort 1 ∈ (onion 0 demoAbort).1 ∧ Ev.aborted 2 7 false ∈ (onion 0 demoAbort).1 ∧
+    Ev.aborted 0 2 true ∈ (onion 0 demoAbort).1 ∧ Ev.enter 0 ∈ (onion 0 demoAbort).1 ∧
+    (proj 0 (onion 0 demoAbort).1).map Ev.erase = [Ev.enter 0] ++ shape 0 [.emit 1, .next, .isAborted 2, .emit 3] ++ [Ev.leave 0] ∧
+    nest [] (onion 0 demoAbort).1 = some [] := by decide
+
+/-- `C05_abort_status`: its hypotheses hold for the part of the demo trace around `AbortWithStatus(403)`;
+    `C05_abort_status_committed`: a write before the abort fixes the status (200 here) -/
+example : finalStatus ([Ev.enter 0, .mark 0 4] ++ Ev.status 0 403 :: Ev.abort 0 :: [.write 0 1, .leave 0]) = 403 ∧
+    finalStatus ([Ev.enter 0, .write 0 1] ++ [Ev.status 0 403, .abort 0, .leave 0]) = 200 := by decide
+
 /-- abort BEFORE Next() in the first of 3 handlers: nobody else starts, Next() afterwards does nothing -/
 example : serve [[.abort, .next, .emit 1], [.emit 2], [.emit 3]] =
     .ok ⟨63, [.enter 0, .abort 0, .mark 0 1, .leave 0]⟩ := by decide
